@@ -11,6 +11,10 @@ class Fail(Exception):
     pass
 
 
+class DontCare(Exception):
+    """the specification leaves this input unconstrained"""
+
+
 class Rec(dict):
     """decoded record: item and attribute access coincide (like Container)"""
     __getattr__ = dict.__getitem__
@@ -93,17 +97,21 @@ def decode(nf, B, p, ctx=None):
             return v, q
         raise Fail('enum: unmapped value %r' % v)
     if k in ('struct', 'sequence'):
-        rec = Rec()
+        rec = Rec()            # the object built
+        cx = Rec()             # the parse context (object members + context-only entries such as is64)
         if ctx is not None:
-            rec['_'] = ctx
+            cx['_'] = ctx
         seq = []
         for name, sub in nf[1]:
-            v, p = decode(sub, B, p, rec)
+            if name == '<embed>':
+                p = decode_embedded(sub, B, p, rec, cx)
+                continue
+            v, p = decode(sub, B, p, cx)
             if k == 'sequence':
                 seq.append(v)
             if name is not None and sub[0] != 'pad':
                 rec[name] = v
-        rec.pop('_', None)
+                cx[name] = v
         return (seq if k == 'sequence' else rec), p
     if k == 'array':
         n = _num(nf[1], ctx)
@@ -204,14 +212,24 @@ def decode(nf, B, p, ctx=None):
             out.append(v)
         return out, p
     if k == 'initial_length':
-        # DWARF 7.4: 0xffffffff escapes to a 64-bit length; 0xfffffff0..0xfffffffe reserved
+        # DWARF 7.4: 0xffffffff escapes to a 64-bit length; 0xfffffff0..0xfffffffe are reserved
+        # (DWARF v3 reserved from 0xffffff00: that band is left to either outcome, see DontCare)
         en = nf[1]
         first, q = decode(('int', 4, False, en), B, p, ctx)
-        if first < 0xfffffff0:
-            return first, q
         if first == 0xffffffff:
-            return decode(('int', 8, False, en), B, q, ctx)
-        raise Fail('reserved initial length')
+            v, q = decode(('int', 8, False, en), B, q, ctx)
+            if ctx is not None:
+                ctx['is64'] = True
+            return v, q
+        if ctx is not None:
+            ctx['is64'] = False
+        if first < 0xffffff00:
+            return first, q
+        if first >= 0xfffffff0:
+            raise Fail('reserved initial length')
+        raise DontCare('initial length %#x lies in the band reserved by DWARF v3 only' % first)
+    if k == 'const':
+        return nf[1], p
     if k == 'pass':
         return None, p
     if k == 'peek':
@@ -221,6 +239,33 @@ def decode(nf, B, p, ctx=None):
             v = None
         return v, p
     raise Fail('Sem: unknown node %r' % (k,))
+
+
+def decode_embedded(nf, B, p, rec, cx):
+    """Embed(...): the members of the selected struct are added to the enclosing record"""
+    k = nf[0]
+    if k == 'struct':
+        for name, sub in nf[1]:
+            if name == '<embed>':
+                p = decode_embedded(sub, B, p, rec, cx)
+                continue
+            v, p = decode(sub, B, p, cx)
+            if name is not None and sub[0] != 'pad':
+                rec[name] = v
+                cx[name] = v
+        return p
+    if k == 'ifthenelse':
+        c = _eval_fn(nf[1], cx)
+        return decode_embedded(nf[2] if c else nf[3], B, p, rec, cx)
+    if k == 'switch':
+        key = _eval_fn(nf[1], cx)
+        sub = nf[2].get(_plain(key), nf[3]) if _hashable(key) else nf[3]
+        if sub is None:
+            raise Fail('switch: no case for %r' % (key,))
+        return decode_embedded(sub, B, p, rec, cx)
+    if k == 'const':
+        return p
+    raise Fail('embedded %r' % (k,))
 
 
 class EnumNames:
@@ -344,3 +389,186 @@ def sub_value(val, name):
     pre = name + '.'
     sub = {k[len(pre):]: v for k, v in val.items() if k.startswith(pre)}
     return sub or None
+
+
+# ---------------------------------------------------------------- generation
+def _enc_uleb(v, pad=0):
+    out = bytearray()
+    while True:
+        b = v & 0x7f
+        v >>= 7
+        if v or pad:
+            out.append(b | 0x80)
+            if not v and pad:
+                pad -= 1
+                if pad == 0:
+                    out.append(0)
+                    break
+        else:
+            out.append(b)
+            break
+    return bytes(out)
+
+
+def _enc_sleb(v):
+    out = bytearray()
+    while True:
+        b = v & 0x7f
+        v >>= 7
+        if (v == 0 and not b & 0x40) or (v == -1 and b & 0x40):
+            out.append(b)
+            return bytes(out)
+        out.append(b | 0x80)
+
+
+def gen(nf, rng, ctx=None, pos=0):
+    """(bytes, value): a random input that is valid for the specification layout,
+    generated alongside its decoded value so that dependent members see their context"""
+    k = nf[0]
+    if k == 'int':
+        _, n, signed, en = nf
+        c = rng.random()
+        if c < 0.6:
+            v = rng.randrange(0, 12)
+        elif c < 0.8:
+            v = rng.randrange(0, 256)
+        else:
+            v = rng.randrange(0, 1 << (8 * n))
+        v %= 1 << (8 * n)
+        raw = v.to_bytes(n, 'little' if en == 'le' else 'big')
+        return raw, int.from_bytes(raw, 'little' if en == 'le' else 'big', signed=signed)
+    if k == 'int24':
+        v = rng.randrange(0, 1 << 24)
+        return v.to_bytes(3, 'little' if nf[1] == 'le' else 'big'), v
+    if k == 'uleb':
+        v = rng.choice([0, 1, 5, 127, 128, 300, 1 << 20, rng.randrange(0, 1 << 40)])
+        return _enc_uleb(v, rng.choice([0, 0, 0, 1, 2])), v
+    if k == 'sleb':
+        v = rng.choice([0, 1, -1, 63, 64, -64, -65, 300, -300, rng.randrange(-(1 << 40), 1 << 40)])
+        return _enc_sleb(v), v
+    if k == 'enum':
+        vals = [x for n, x in nf[2].items() if n != '_default_']
+        sub = nf[1]
+        if vals and rng.random() < 0.85:
+            v = rng.choice(vals)
+            if sub[0] == 'int':
+                n = sub[1]
+                if 0 <= v < 1 << (8 * n) or sub[2]:
+                    raw = (v % (1 << (8 * n))).to_bytes(n, 'little' if sub[3] == 'le' else 'big')
+                    val, _ = decode(nf, raw, 0, ctx)
+                    return raw, val
+            elif sub[0] == 'uleb' and v >= 0:
+                raw = _enc_uleb(v)
+                val, _ = decode(nf, raw, 0, ctx)
+                return raw, val
+        raw, _v = gen(sub, rng, ctx, pos)
+        try:
+            val, _ = decode(nf, raw, 0, ctx)
+        except Fail:
+            val = None
+        return raw, val
+    if k in ('struct', 'sequence'):
+        rec, cx, out = Rec(), Rec(), b''
+        if ctx is not None:
+            cx['_'] = ctx
+        seq = []
+
+        def members(items):
+            nonlocal out
+            for name, sub in items:
+                if name == '<embed>':
+                    embedded(sub)
+                    continue
+                raw, v = gen(sub, rng, cx, pos + len(out))
+                out += raw
+                seq.append(v)
+                if name is not None and sub[0] != 'pad':
+                    rec[name] = v
+                    cx[name] = v
+
+        def embedded(sub):
+            if sub[0] == 'struct':
+                members(sub[1])
+            elif sub[0] == 'ifthenelse':
+                embedded(sub[2] if _eval_fn(sub[1], cx) else sub[3])
+            elif sub[0] == 'switch':
+                key = _eval_fn(sub[1], cx)
+                s2 = sub[2].get(_plain(key), sub[3]) if _hashable(key) else sub[3]
+                if s2 is not None:
+                    embedded(s2)
+        members(nf[1])
+        return out, (seq if k == 'sequence' else rec)
+    if k == 'array':
+        n = _num(nf[1], ctx)
+        out, vs = b'', []
+        for _ in range(min(max(n, 0), 40)):
+            raw, v = gen(nf[2], rng, ctx, pos + len(out))
+            out += raw
+            vs.append(v)
+        return out, vs
+    if k == 'prefixed':
+        n = rng.choice([0, 1, 2, 3, 5])
+        sub = nf[1]
+        if sub[0] == 'int':
+            out = n.to_bytes(sub[1], 'little' if sub[3] == 'le' else 'big')
+        else:
+            out = _enc_uleb(n)
+        vs = []
+        for _ in range(n):
+            raw, v = gen(nf[2], rng, ctx, pos + len(out))
+            out += raw
+            vs.append(v)
+        return out, vs
+    if k in ('bytes', 'string', 'pad'):
+        n = _num(nf[1], ctx)
+        n = min(max(n, 0), 64)
+        if k == 'pad':
+            return nf[2] * n, None
+        raw = bytes(rng.randrange(256) for _ in range(n))
+        return raw, raw
+    if k == 'cstring':
+        raw = bytes(rng.randrange(1, 128) for _ in range(rng.choice([0, 1, 3, 7])))
+        return raw + b'\x00', raw
+    if k == 'initial_length':
+        en = nf[1]
+        ctx is not None and ctx.__setitem__('is64', False)
+        if rng.random() < 0.75:
+            v = rng.choice([0, 4, 11, 50, rng.randrange(0, 0xffffff00)])
+            return v.to_bytes(4, 'little' if en == 'le' else 'big'), v
+        ctx is not None and ctx.__setitem__('is64', True)
+        v = rng.choice([0, 12, 100, rng.randrange(0, 1 << 64)])
+        return (0xffffffff).to_bytes(4, 'little' if en == 'le' else 'big') + v.to_bytes(8, 'little' if en == 'le' else 'big'), v
+    if k == 'ifthenelse':
+        return gen(nf[2] if _eval_fn(nf[1], ctx) else nf[3], rng, ctx, pos)
+    if k == 'switch':
+        key = _eval_fn(nf[1], ctx)
+        sub = nf[2].get(_plain(key), nf[3]) if _hashable(key) else nf[3]
+        if sub is None:
+            return b'', None
+        return gen(sub, rng, ctx, pos)
+    if k == 'until':
+        out, vs = b'', []
+        for _ in range(4):
+            raw, v = gen(nf[2], rng, ctx, pos + len(out))
+            out += raw
+            try:
+                if _eval_fn(nf[1], ctx, {'obj': v}):
+                    break
+            except Exception:
+                break
+            vs.append(v)
+        return out, vs
+    if k == 'bits':
+        nb = (sum(w for (_n, w, _e, _s, _sw) in nf[1]) + 7) // 8
+        raw = bytes(rng.randrange(256) for _ in range(nb))
+        v, _ = decode(nf, raw, 0, ctx)
+        return raw, v
+    if k == 'value':
+        return b'', _eval_fn(nf[1], ctx)
+    if k == 'offset':
+        return b'', pos
+    if k == 'const':
+        return b'', nf[1]
+    if k == 'pass':
+        return b'', None
+    raise Fail('gen: %r' % (k,))
